@@ -33,6 +33,7 @@ pub struct Plan {
     pub splits: Vec<(u64, u64, Vec<usize>)>,
     pub duration_ms: u64,
     pub full_node: bool,
+    pub sync_retry_ms: u64,
 }
 
 fn faults_tolerated(stakes: &[u32]) -> u64 {
@@ -94,6 +95,7 @@ pub fn plan(class: &str, seed: u64, p: &Params) -> Plan {
         splits: Vec::new(),
         duration_ms,
         full_node: p.get_u64("full_node").unwrap_or(0) == 1,
+        sync_retry_ms: p.get_u64("sync_retry_ms").unwrap_or(5_000),
     };
     let f_nodes = pick_faulty(&mut rng, &stakes, n);
     match class {
@@ -182,6 +184,7 @@ pub fn execute(plan: &Plan, seed: u64) -> Outcome {
         cfg.stakes = plan.stakes.clone();
         cfg.timeout_ms = plan.timeout_ms;
         cfg.full_node = plan.full_node;
+        cfg.sync_retry_ms = plan.sync_retry_ms;
         cfg.not_started = plan.crashes.iter().filter(|(_, at)| *at == 0).map(|(x, _)| *x).collect();
         let cluster = Cluster::start(cfg).await;
         {
@@ -257,9 +260,26 @@ pub fn check_c06(plan: &Plan, out: &Outcome, r: &mut Report) {
         r.inconclusive.push("C06: premise not met (more than f crashed or links cut)".into());
         return;
     }
+    // A commit needs three consecutive live leaders (proposer of b0, of b1, and the collector of
+    // the votes for b1). Round-robin over authorities guarantees that for equal stakes and <= f
+    // crashes; with unequal stakes a crashed set of <= f *stake* can consist of so many small
+    // authorities that no such window exists, which is outside what C06 states (it counts f
+    // authorities). Such plans do not meet the premise.
+    {
+        let n = plan.n;
+        let live_run = (0..n).any(|s| (0..3).all(|k| !crashed.contains(&((s + k) % n))));
+        if !live_run {
+            r.inconclusive.push("C06: premise not met (no three consecutive live leaders in the rotation; unequal stakes)".into());
+            r.count("C06.plans_without_three_consecutive_live_leaders", 1);
+            return;
+        }
+    }
     let last_crash = plan.crashes.iter().map(|(_, at)| *at).max().unwrap_or(0);
     let gst = plan.gst_ms.max(last_crash);
-    let w = 6 * (f + 1).max(1) * plan.timeout_ms;
+    // A leader that crashes in the middle of a broadcast leaves some nodes without its block; they
+    // ask the author of the next block first and fall back to everybody only after
+    // sync_retry_delay, checked on a fixed 5 s timer (consensus/src/synchronizer.rs).
+    let w = 6 * (f + 1).max(1) * plan.timeout_ms + plan.sync_retry_ms + 10_000;
     let start = gst + w;
     let windows = plan.duration_ms.saturating_sub(start) / w;
     if windows < 3 {
